@@ -69,6 +69,7 @@ class Ref(Kind):
 
 _LIST_SORTS = {}
 USED_LIST_SORTS = {}
+USED_MEM = {}
 
 
 def list_sort(elem_sort):
@@ -95,7 +96,12 @@ class Seq(Kind):
 
     # ---- term constructors / accessors
     def len(self, t):
-        return self.sort().len(t)
+        # the datatype is freely generated (negative `len` fields exist), so the length is clamped
+        raw = self.sort().len(t)
+        r = z3.simplify(raw)
+        if z3.is_int_value(r):
+            return z3.IntVal(max(r.as_long(), 0))
+        return z3.If(raw >= 0, raw, 0)
 
     def at(self, t, i):
         return z3.Select(self.sort().at(t), i)
@@ -122,15 +128,98 @@ class Seq(Kind):
     def append(self, t, x):
         return self.mk(self.len(t) + 1, z3.Store(self.arr(t), self.len(t), x))
 
-    def concat(self, a, b):
+    def concat(self, st, a, b):
+        """a + b as a fresh list constant with defining (lambda-free) facts."""
+        c = z3.Const(fresh_name("cat"), self.sort())
         i = z3.Const(fresh_name("ci"), z3.IntSort())
-        la = self.len(a)
-        arr = z3.Lambda([i], z3.If(i < la, z3.Select(self.arr(a), i), z3.Select(self.arr(b), i - la)))
-        return self.mk(la + self.len(b), arr)
+        la, lb = self.len(a), self.len(b)
+        st.assume(self.sort().len(c) == la + lb)
+        st.assume(z3.ForAll([i], z3.Implies(z3.And(0 <= i, i < la), self.at(c, i) == self.at(a, i)), patterns=[self.at(c, i)]))
+        st.assume(z3.ForAll([i], z3.Implies(z3.And(0 <= i, i < lb), self.at(c, la + i) == self.at(b, i)), patterns=[self.at(b, i)]))
+        st.assume(z3.ForAll([i], z3.Implies(z3.And(la <= i, i < la + lb), self.at(c, i) == self.at(b, i - la)), patterns=[self.at(c, i)]))
+        st.assume(self.lemma_concat(c, a, b))
+        return c
+
+    def sub(self, st, t, lo, n):
+        c = z3.Const(fresh_name("sub"), self.sort())
+        i = z3.Const(fresh_name("si"), z3.IntSort())
+        st.assume(self.sort().len(c) == z3.If(n >= 0, n, 0))
+        st.assume(z3.ForAll([i], z3.Implies(z3.And(0 <= i, i < n), self.at(c, i) == self.at(t, i + lo)), patterns=[self.at(c, i)]))
+        st.assume(self.lemma_sublist(c, t))
+        return c
+
+    def without(self, st, t, k):
+        """The list with the element at index k removed (fresh constant with defining facts)."""
+        c = z3.Const(fresh_name("del"), self.sort())
+        i = z3.Const(fresh_name("ri"), z3.IntSort())
+        n = self.len(t)
+        st.assume(self.sort().len(c) == n - 1)
+        st.assume(z3.ForAll([i], z3.Implies(z3.And(0 <= i, i < k), self.at(c, i) == self.at(t, i)), patterns=[self.at(c, i)]))
+        st.assume(z3.ForAll([i], z3.Implies(z3.And(k <= i, i < n - 1), self.at(c, i) == self.at(t, i + 1)), patterns=[self.at(c, i)]))
+        st.assume(self.lemma_sublist(c, t))
+        x = z3.Const(fresh_name("lx"), self.elem.sort())
+        st.assume(z3.ForAll([x], z3.Implies(z3.And(self.contains(t, x), x != self.at(t, k)), self.contains(c, x)),
+                            patterns=[self.contains(t, x)]))
+        return c
+
+    def equal(self, a, b):
+        i = z3.Const(fresh_name("ei"), z3.IntSort())
+        return z3.And(self.len(a) == self.len(b),
+                      z3.ForAll([i], z3.Implies(z3.And(0 <= i, i < self.len(a)),
+                                                z3.Select(self.arr(a), i) == z3.Select(self.arr(b), i))))
+
+    # membership is an uninterpreted predicate tied to the elements by two global axioms (see axioms());
+    # list constructors additionally state their membership lemma as a fact (see lemma_*)
+    def mem_fn(self):
+        return z3.Function(f"mem<{self.elem.sort()}>", self.sort(), self.elem.sort(), z3.BoolSort())
+
+    def idx_fn(self):
+        return z3.Function(f"memidx<{self.elem.sort()}>", self.sort(), self.elem.sort(), z3.IntSort())
 
     def contains(self, t, x):
-        i = z3.Const(fresh_name("mi"), z3.IntSort())
-        return z3.Exists([i], z3.And(0 <= i, i < self.len(t), z3.Select(self.arr(t), i) == x))
+        USED_MEM[str(self.elem.sort())] = self
+        return self.mem_fn()(t, x)
+
+    def axioms(self):
+        l = z3.Const("ax_l", self.sort())
+        i = z3.Const("ax_i", z3.IntSort())
+        x = z3.Const("ax_x", self.elem.sort())
+        mem, idx = self.mem_fn(), self.idx_fn()
+        return [
+            z3.ForAll([l, i], z3.Implies(z3.And(0 <= i, i < self.len(l)), mem(l, self.at(l, i))), patterns=[self.at(l, i)]),
+            z3.ForAll([l, x], z3.Implies(mem(l, x), z3.And(0 <= idx(l, x), idx(l, x) < self.len(l),
+                                                          self.at(l, idx(l, x)) == x)), patterns=[mem(l, x)]),
+        ]
+
+    def named(self, st, term):
+        """Give a constructed list a name (constant) so that it can be used in quantifier patterns."""
+        c = z3.Const(fresh_name("lst"), self.sort())
+        st.assume(c == term)
+        return c
+
+    def lemma_append(self, new, old, y):
+        x = z3.Const(fresh_name("lx"), self.elem.sort())
+        mem = self.mem_fn()
+        USED_MEM[str(self.elem.sort())] = self
+        return z3.ForAll([x], mem(new, x) == z3.Or(mem(old, x), x == y), patterns=[mem(new, x)])
+
+    def lemma_concat(self, new, a, b):
+        x = z3.Const(fresh_name("lx"), self.elem.sort())
+        mem = self.mem_fn()
+        USED_MEM[str(self.elem.sort())] = self
+        return z3.ForAll([x], mem(new, x) == z3.Or(mem(a, x), mem(b, x)), patterns=[mem(new, x)])
+
+    def lemma_literal(self, new, terms):
+        x = z3.Const(fresh_name("lx"), self.elem.sort())
+        mem = self.mem_fn()
+        USED_MEM[str(self.elem.sort())] = self
+        return z3.ForAll([x], mem(new, x) == z3.Or([x == t for t in terms] or [z3.BoolVal(False)]), patterns=[mem(new, x)])
+
+    def lemma_sublist(self, new, old):
+        x = z3.Const(fresh_name("lx"), self.elem.sort())
+        mem = self.mem_fn()
+        USED_MEM[str(self.elem.sort())] = self
+        return z3.ForAll([x], z3.Implies(mem(new, x), mem(old, x)), patterns=[mem(new, x)])
 
     def sub(self, t, lo, n):
         i = z3.Const(fresh_name("si"), z3.IntSort())
